@@ -24,7 +24,7 @@ RULE = ('Cases: an ancestor with substitution sites >= 2k apart and >= 2k from t
 ASSUMPTIONS = ['the planted truth is the oracle; well-formedness is a direct predicate on the output',
                'union-of-samples uniqueness (DESIGN.md section 8); sites at least 2k from the sequence ends']
 REQUIRED = {t: ['mode:free', 'mode:ref', 'mode:wf', 'ref:ancestor', 'ref:revcomp', 'ref:sample', 'threads>1', 'jitter_runs',
-                'sites_called', 'multiallelic_sites', 'wf_columns_checked', 'vcf_records_checked', 'reference_with_N', 'runs_over_existing_output', 'reference_route:plain', 'reference_route:gz', 'reference_route:gz-multi', 'runs_of_four_allelic_sites', 'dotted_output_prefix', 'runs_with_-n_0', 'sites_k-1_from_the_ends'] for t in ('quick', 'thorough')}
+                'sites_called', 'multiallelic_sites', 'wf_columns_checked', 'vcf_records_checked', 'reference_with_N', 'runs_over_existing_output', 'reference_route:plain', 'reference_route:gz', 'reference_route:gz-multi', 'runs_of_four_allelic_sites', 'dotted_output_prefix', 'runs_with_-n_0', 'sites_k-1_from_the_ends', 'runs_with_-v'] for t in ('quick', 'thorough')}
 FREE_K = [7, 9, 11, 15, 17, 21, 31, 33]
 REF_K = [15, 17, 21, 31, 33]
 
@@ -233,6 +233,9 @@ def run_case(desc, ctx):
     args = ['lo', ctx.path('o.skf'), ctx.path(OUT), '--threads', desc['threads'], '-m', desc['m']] + (['-n', desc['n']] if desc.get('n') is not None else [])
     if desc.get('n') == '0':
         res.count('runs_with_-n_0')
+    if desc['seed'] % 5 == 1:
+        args = args + ['-v']
+        res.count('runs_with_-v')
     refseq = None
     if mode in ('ref', 'wf'):
         if mode == 'wf':
